@@ -12,7 +12,7 @@
    (no hypothesis left) and with an arbitrary policy under that named hypothesis. *)
 From SSL.Model Require Import Base Ty Float Value Ops Seq Syntax Rt Recreate Exec Check Top.
 From SSL.Lemmas Require Import TyLemmas ValueLemmas SeqLemmas ExecLemmas SoundLemmas CellLemmas
-  SoundDefs SoundVals SoundTyping Sound1 Sound2 Sound3 Sound4 Sound5.
+  SoundDefs SoundVals SoundTyping Sound1 Sound2 Sound3 Sound4 Sound5 SoundRec1 Sound6.
 
 Arguments matches : simpl never.
 Arguments ty_eqb : simpl never.
@@ -26,7 +26,7 @@ Context {FL : Policy}.
 Section Sound.
 Variable powf : fbits -> fbits -> fbits.
 Variable pre : prelude.
-Hypothesis Hpol : policy_ok powf.
+Hypothesis Hpol : policy_ok powf pre.
 Notation E := (exec powf pre).
 Notation sound_at := (sound_at powf pre).
 Notation sound_line_at := (sound_line_at powf pre).
@@ -68,7 +68,13 @@ Proof.
   - eapply case_assign; eassumption.
   - eapply case_opassign; eassumption.
   - eapply case_call; eassumption.
-  - eapply case_anonfn; try eassumption. eapply (Hpol _ _ None); try eassumption. exact I.
+  - eapply case_anonfn; try eassumption. eapply (proj1 Hpol _ _ None); try eassumption. exact I.
+  - eapply case_collect; eassumption.
+  - eapply case_reduce; eassumption.
+  - eapply case_type_filter; eassumption.
+  - eapply case_sum; try eassumption. exact (proj2 Hpol).
+  - eapply case_product; try eassumption. exact (proj2 Hpol).
+  - eapply case_partition; eassumption.
 Qed.
 
 Lemma fndecl_sound_all n : fndecl_sound_at powf pre n.
